@@ -1,4 +1,5 @@
 import LtVerif.Model.Burl
+import LtVerif.Model.Docroot
 namespace Driver
 open LtVerif LtVerif.B
 
@@ -7,7 +8,198 @@ def withHex (s : String) (f : Bytes → String) : String :=
   | some b => f b
   | none => "bad-op"
 
-def urlLine : List String → String
+/-- all tokens hex-decoded, or none -/
+def hexAll : List String → Option (List Bytes)
+  | [] => some []
+  | s :: rest =>
+    match ofHex s, hexAll rest with
+    | some b, some bs => some (b :: bs)
+    | _, _ => none
+
+/-- "~" = absent -/
+def hexOpt (s : String) : Option (Option Bytes) :=
+  if s = "~" then some none else (ofHex s).map some
+
+def pairsOf : List Bytes → List (Bytes × Bytes)
+  | k :: v :: rest => (k, v) :: pairsOf rest
+  | _ => []
+
+def optHex : Option Bytes → String
+  | some b => toHex b
+  | none => "~"
+
+/-- deterministic stand-in for the filesystem used by the in-process vhost ops -/
+def isdirMode (mode : String) (p : Bytes) : Bool :=
+  match mode with
+  | "0" => false
+  | "1" => true
+  | "2" => p.length % 2 == 0
+  | _ => p.length % 3 == 0
+
+def fsKindOf (s : String) : FsKind :=
+  match s with
+  | "d" => .dir
+  | "f" => .file
+  | "l" => .link
+  | _ => .missing
+
+/-- "hexpath:kind" tokens -/
+def fsOfTokens (toks : List String) : Bytes → FsKind :=
+  let tbl : List (Bytes × FsKind) := toks.filterMap fun t =>
+    match t.splitOn ":" with
+    | [h, k] => (ofHex h).map fun b => (b, fsKindOf k)
+    | _ => none
+  fun p => ((tbl.find? (·.1 = p)).map (·.2)).getD .missing
+
+def showAlias : AliasRes → String
+  | .forbidden => "403"
+  | .go p b => "go " ++ toHex p ++ " " ++ toHex b
+
+def showXsf : XsfRes → String
+  | .status st => "st " ++ toString st
+  | .send p => "send " ++ toHex p
+
+/-- vhost specification tokens of the `cand` / `serve` ops:
+    "none" | "sv" sroot defhost droot | "ev" pattern ; returns the config and the remaining tokens -/
+def parseVhost : List String → Option (Option VhostCfg × List String)
+  | "none" :: rest => some (some .none, rest)
+  | "sv" :: sr :: dh :: dr :: rest =>
+    match ofHex sr, hexOpt dh, hexOpt dr with
+    | some sroot, some defhost, some droot => some (some (.simple sroot defhost droot), rest)
+    | _, _, _ => none
+  | "ev" :: pat :: rest =>
+    match ofHex pat with
+    | some p =>
+      (match evParsePattern p with
+       | some pieces => some (some (.evhost pieces), rest)
+       | none => some (none, rest))
+    | none => none
+  | _ => none
+
+/-- n hex tokens, then the rest -/
+def takeCounted (toks : List String) : Option (List Bytes × List String) :=
+  match toks with
+  | n :: rest =>
+    match n.toNat? with
+    | some k =>
+      if k ≤ rest.length then (hexAll (rest.take k)).map fun bs => (bs, rest.drop k) else none
+    | none => none
+  | [] => none
+
+def docrootLine : List String → Option String
+  | ["hostpol", st, h] => some <| withHex h fun b =>
+    match hostPolicyPlain (st == "1") b with
+    | none => "rej"
+    | some r => "ok " ++ toHex r
+  | ["phys", lc, d, u] =>
+    match ofHex d, ofHex u with
+    | some d, some u => some (toHex (physicalPath (lc == "1") d u))
+    | _, _ => some "bad-op"
+  | "alias" :: lc :: bd :: p :: kv =>
+    match ofHex bd, ofHex p, hexAll kv with
+    | some bd, some p, some kv => some (showAlias (aliasRemap (lc == "1") (pairsOf kv) bd p))
+    | _, _, _ => some "bad-op"
+  | ["svhost", st, mode, sr, dh, dr, a] =>
+    match ofHex sr, hexOpt dh, hexOpt dr, ofHex a with
+    | some sr, some dh, some dr, some a =>
+      some (match svhostDocroot (st == "1") (isdirMode mode) sr dh dr a with
+            | none => "none"
+            | some (d, sn) => "ok " ++ toHex d ++ " " ++ optHex sn)
+    | _, _, _, _ => some "bad-op"
+  | ["evhost", st, mode, pat, a] =>
+    match ofHex pat, ofHex a with
+    | some pat, some a =>
+      some (match evParsePattern pat with
+            | none => "badpat"
+            | some pieces =>
+              match evhostDocroot (st == "1") (isdirMode mode) pieces a with
+              | none => "none"
+              | some d => "ok " ++ toHex d)
+    | _, _ => some "bad-op"
+  | ["evpath", pat, a] =>
+    match ofHex pat, ofHex a with
+    | some pat, some a =>
+      some (match evParsePattern pat with
+            | none => "badpat"
+            | some pieces => toHex (evBuildPath pieces a))
+    | _, _ => some "bad-op"
+  | ["userdir", lc, lh, bp, up, u] =>
+    match ofHex bp, ofHex up, ofHex u with
+    | some bp, some up, some u =>
+      let l := lc == "1"
+      some (match userdirRemap l (lh == "1") bp up u (if l then lowerBytes u else u) with
+            | .pass => "pass"
+            | .redirect => "301"
+            | .go p b => "go " ++ toHex p ++ " " ++ toHex b)
+    | _, _, _ => some "bad-op"
+  | "xsf" :: lc :: raw :: xd =>
+    match ofHex raw, hexAll xd with
+    | some raw, some xd => some (showXsf (xsendfilePath (lc == "1") xd raw))
+    | _, _ => some "bad-op"
+  | "xsf2" :: lc :: raw :: xd =>
+    match ofHex raw, hexAll xd with
+    | some raw, some xd => some (showXsf (xsendfile2First (lc == "1") xd raw))
+    | _, _ => some "bad-op"
+  | ["davdst", lc, sch, au, dr, sr, sp, de] =>
+    match hexAll [sch, au, dr, sr, sp, de] with
+    | some [sch, au, dr, sr, sp, de] =>
+      some (match davDestination (lc == "1") sch au dr sr sp de with
+            | .status st => "st " ++ toString st
+            | .ok r p => "ok " ++ toHex r ++ " " ++ toHex p)
+    | _ => some "bad-op"
+  | "symwalk" :: name :: fs =>
+    match ofHex name with
+    | some name => some (toString (symWalk (fsOfTokens fs) name))
+    | none => some "bad-op"
+  | "cand" :: rest =>
+    -- candidate doc_root directories the vhost module would stat: cand <vhost...> <parseopts> <raw host>
+    match parseVhost rest with
+    | some (some vh, [fl, a]) =>
+      (match fl.toNat?, ofHex a with
+       | some f, some raw =>
+         let o : Opts := ⟨f⟩
+         if raw.head? = some 91 && o.hostNormalize then some "skip" else
+         match authorityOf o 80 raw with
+         | none => some "rej"
+         | some a =>
+         some (match vh with
+               | .none => "-"
+               | .simple sr dh dr =>
+                 (if svhostGuard o.hostStrict a then toHex (svhostPath sr (some a) dr) else "~") ++ " " ++
+                   toHex (svhostPath sr dh dr)
+               | .evhost pieces =>
+                 if evhostGuard o.hostStrict a then toHex (evBuildPath pieces a) else "~")
+       | _, _ => some "bad-op")
+    | some (none, _) => some "badpat"
+    | _ => some "bad-op"
+  | "serve" :: fl :: lc :: dr :: rest =>
+    -- serve <parseopts> <lc> <docroot> <vhost...> <ndirs> <dirs...> <nalias*2> <k v ...> <authority> <target>
+    match fl.toNat?, ofHex dr, parseVhost rest with
+    | some f, some dr, some (vh?, rest) =>
+      match vh? with
+      | none => some "badpat"
+      | some vh =>
+        match takeCounted rest with
+        | some (dirs, rest) =>
+          match takeCounted rest with
+          | some (kv, [a, t]) =>
+            (match ofHex a, ofHex t with
+             | some a, some t =>
+               if a.head? = some 91 && (Opts.mk f).hostNormalize then some "skip" else
+               some (match servePath ⟨f⟩ (lc == "1") dr vh (fun p => dirs.contains p) (pairsOf kv) a t with
+                     | .reject st => "rej " ++ toString st
+                     | .path p d => "path " ++ toHex p ++ " " ++ toHex d)
+             | _, _ => some "bad-op")
+          | _ => some "bad-op"
+        | none => some "bad-op"
+    | _, _, _ => some "bad-op"
+  | _ => none
+
+def urlLine (toks : List String) : String :=
+  match docrootLine toks with
+  | some r => r
+  | none =>
+  match toks with
   | ["dec", h] => withHex h fun b => toHex (urldecodePath b)
   | ["simp", h] => withHex h fun b => toHex (pathSimplify b)
   | ["decsimp", h] => withHex h fun b => toHex (pathSimplify (urldecodePath b))
